@@ -136,25 +136,31 @@ def rule_byte_at_a_time(facts, rep):
     in_loop = [f for f in frames if f.get("kind") == "loop"]
     rep.check(len(in_loop) == 1 and hir.is_local(call["args"][0], "parser") and hir.is_local(call["args"][1], "capture"),
               "byte-at-a-time", b["path"], "advance(parser, capture, byte)-in-one-loop", "", loc(b, call))
-    # the byte comes from `(*bytes).split_first()`, and `*bytes = remainder` on the same path
+    # the byte comes from `(*bytes).split_first()`, `*bytes = remainder` of the same call in the same iteration, and the
+    # no-more-input case leaves the loop — whatever binds them (`if let .. else { break }`, `match`, `let .. else`)
     loop = in_loop[0]["node"] if in_loop else None
     ok_split = ok_adv = ok_break = False
     if loop is not None:
-        lets = [n for n in hir.walk(loop) if n.get("k") == "let" and n["pat"].get("name") == hir.local_name(call["args"][2])]
-        if len(lets) == 1:
-            init = hir.simp(lets[0]["init"])
-            if init.get("k") == "if":
-                c = hir.simp(init["c"])
-                if c.get("k") == "letexpr" and hir.is_call(hir.simp(c["init"]), "split_first") and hir.is_local(hir.simp(c["init"])["args"][0], "bytes"):
-                    pat = c["pat"]
-                    inner = pat["pats"][0] if pat.get("k") == "pts" else (pat["fields"][0]["p"] if pat.get("k") == "pstruct" else {})
-                    names = [p.get("name") for p in inner.get("pats", [])] if inner.get("k") == "ptuple" else []
-                    if len(names) == 2:
-                        ok_split = True
-                        st = hir.stmts_of(init["t"])
-                        ok_adv = (len(st) == 2 and st[0].get("k") == "assign" and hir.is_local(st[0]["l"], "bytes") and hir.is_local(st[0]["r"], names[1])
-                                  and hir.is_local(st[1], names[0]))
-                        ok_break = hir.simp(hir.stmts_of(init.get("e", {}))[-1]).get("k") == "break" if "e" in init else False
+        O = hir.Origins(b["hir"])
+        src, proj = O.of(call["args"][2])
+        ok_split = hir.is_call(src, "split_first") and hir.is_local(hir.peel(src["args"][0]), "bytes") and proj == ("Some", ("tup", 0))
+        stores = hir.visit_with_conds(loop, lambda n: n.get("k") == "assign" and hir.is_local(n["l"], "bytes") and hir.simp(n["l"]).get("k") == "un")
+        if ok_split and len(stores) == 1:
+            st_node, st_frames = stores[0]
+            s2, p2 = O.of(st_node["r"])
+            extra = [f for f in st_frames if f.get("kind") == "if" and not (
+                hir.is_call(hir.simp(f["expr"]), "Option::<T>::is_none") or hir.simp(f["expr"]).get("k") == "letexpr")]
+            ok_adv = s2 is src and p2 == ("Some", ("tup", 1)) and not extra
+        # the None case: the construct that destructures split_first() diverges with `break` when it does not match
+        for n in hir.walk(loop):
+            k = n.get("k")
+            if k == "let" and "els" in n and hir.simp(n.get("init")) is src:
+                ok_break = any(x.get("k") == "break" and "label" not in x for x in hir.walk(n["els"]))
+            elif k == "if" and hir.simp(n["c"]).get("k") == "letexpr" and hir.simp(hir.simp(n["c"])["init"]) is src and "e" in n:
+                ok_break = hir.simp(hir.stmts_of(n["e"])[-1]).get("k") == "break"
+            elif k == "match" and n.get("src") not in ("TryDesugar", "ForLoopDesugar") and hir.simp(n["scrut"]) is src:
+                rest = [a for a in n["arms"] if hir.last_seg(hir.pat_path(a["pat"]) or "") != "Some"]
+                ok_break = len(rest) == 1 and hir.simp(hir.stmts_of(rest[0]["body"])[-1]).get("k") == "break"
     rep.check(ok_split, "byte-at-a-time", b["path"], "byte-from-split_first", "", loc(b))
     rep.check(ok_adv, "byte-at-a-time", b["path"], "advance-input-by-one", "*bytes = remainder; the first byte goes to the parser", loc(b))
     rep.check(ok_break, "byte-at-a-time", b["path"], "stop-at-end-of-chunk", "", loc(b))
